@@ -121,6 +121,8 @@ type TunnelRec struct {
 	ServeErr      string `json:"serve_err,omitempty"`
 	ServeErrNil   bool   `json:"serve_err_nil"`
 	ServeStarted  bool   `json:"serve_started"`
+	ServeCalled   int    `json:"serve_called,omitempty"` // reverse: step at which Serve was called (0: during set-up)
+	Late          bool   `json:"late,omitempty"`         // opened by a serve_more event during the run
 	OpenCb, CloseCb int  `json:"-"`
 	Callbacks []string `json:"callbacks,omitempty"` // "open@step", "close@step"
 	Revision  int32 `json:"revision"` // negotiated (as observed on new_stream frames; -1 unknown)
